@@ -10,6 +10,7 @@ import asyncio
 from collections.abc import AsyncIterator
 from contextlib import asynccontextmanager
 import logging
+import math
 import random
 from typing import TYPE_CHECKING, Final
 
@@ -80,6 +81,21 @@ class _RoutingFlowControl:
         """Cancel internal tasks."""
         if self._timer_task:
             self._timer_task.cancel()
+            self._timer_task = None
+
+    def restart(self) -> None:
+        """Resume a pause that `cancel()` interrupted - it still ends after the announced time."""
+        if self._wait_start_time is None or self._timer_task is not None:
+            return
+        now = self._loop.time()
+        remaining_ms = self._wait_time_ms - (now - self._wait_start_time) * 1000
+        if remaining_ms <= 0:
+            self._wait_start_time = None
+            self._ready.set()
+            return
+        self._wait_time_ms = math.ceil(remaining_ms)
+        self._wait_start_time = now
+        self._timer_task = asyncio.create_task(self._resume_sending())
 
     @asynccontextmanager
     async def throttle(self) -> AsyncIterator[None]:
@@ -226,6 +242,7 @@ class Routing(Interface):
             # close udp transport to prevent open file descriptors
             self.transport.stop()
             raise CommunicationError("Routing could not be started") from ex
+        self._flow_control.restart()
         self.xknx.connection_manager.connection_state_changed(
             XknxConnectionState.CONNECTED, self.connection_type
         )
